@@ -29,6 +29,28 @@ Proof.
   intros v f. unfold bind. simpl. rewrite seq_nil_r. destruct (f v) as [os [x|]]; reflexivity.
 Qed.
 
+(* constant objects: when every entry is  push k; load v; const c  the object is the constant mk_obj builds *)
+Lemma ents_const_den : forall (C : query -> nat -> nat -> nat -> res) (ev : query -> result) x (es : list ent) p n s cs n' s' kcs,
+  comp_ents C x es p n s = Some (cs, n', s') -> ents_const cs = Some kcs ->
+  Forall (EntP (fun a => forall p n s n' s' k0, C a p n s = Some ([Iconst k0], n', s') -> ev a = ([k0], None))) es ->
+  forall acc, den_ents ev es acc = of_sum (mk_obj (acc ++ kcs)).
+Proof.
+  induction es as [|[k qv] r IH]; intros p n s cs n' s' kcs H Hk HF acc; simpl in H.
+  - inversion H; subst. simpl in Hk. inversion Hk; subst. rewrite app_nil_r. reflexivity.
+  - inversion HF as [|? ? [_ Hv] HF']; subst. simpl in Hv.
+    destruct k as [str|kq].
+    + destruct (C qv (p + length [Ipush (VStr str)] + 1) n s) as [[[cv n2] s2]|] eqn:Ev; [|discriminate].
+      destruct (comp_ents C x r _ n2 s2) as [[[cr n3] s3]|] eqn:Er; [|discriminate]. inversion H; subst. clear H.
+      cbn [app ents_const] in Hk. destruct cv as [|[] [|? ?]]; try discriminate Hk.
+      destruct (ents_const cr) as [l|] eqn:El; [|discriminate]. inversion Hk; subst.
+      cbn [den_ents]. rewrite bind_single. rewrite (Hv _ _ _ _ _ _ Ev), bind_single.
+      rewrite (IH _ _ _ _ _ _ _ Er El HF'). rewrite <- app_assoc. reflexivity.
+    + destruct (C kq (S p) n s) as [[[ck n1] s1]|] eqn:Ek; [|discriminate].
+      destruct (C qv (p + length (Iload x :: ck) + 1) n1 s1) as [[[cv n2] s2]|] eqn:Ev; [|discriminate].
+      destruct (comp_ents C x r _ n2 s2) as [[[cr n3] s3]|] eqn:Er; [|discriminate]. inversion H; subst.
+      simpl in Hk. discriminate.
+Qed.
+
 Lemma acl_sound : forall q cs, acl q = Some cs -> forall rho v, den q rho v = (cs, None).
 Proof.
   qind q;
@@ -48,6 +70,24 @@ Proof.
         repeat match goal with H : match ?x with _ => _ end = Some _ |- _ => destruct x eqn:?; try discriminate end;
         inversion Hc; eauto. }
     destruct Hq as (cs' & Hq & ->). simpl. rewrite (IHq _ Hq). reflexivity.
+  - (* object *) destruct es as [|e es]; [inversion Hc; subst; reflexivity|].
+    change (match obj_consts acl (e :: es) with
+            | Some kcs => match mk_obj kcs with inl w => Some [w] | inr _ => None end
+            | None => None end = Some cs) in Hc.
+    destruct (obj_consts acl (e :: es)) as [kcs|] eqn:Eg; [|discriminate].
+    destruct (mk_obj kcs) as [w|] eqn:Em; [|discriminate]. inversion Hc; subst cs. clear Hc.
+    assert (H : forall l kcs0, obj_consts acl l = Some kcs0 ->
+                Forall (Pent (fun q => forall cs, acl q = Some cs -> forall rho v, den q rho v = (cs, None))) l ->
+                forall acc, den_ents (fun a => den a rho v) l acc = of_sum (mk_obj (acc ++ kcs0))).
+    { induction l as [|[k qv] r IHr]; intros kcs0 Hg HF acc.
+      - simpl in Hg. inversion Hg; subst. rewrite app_nil_r. reflexivity.
+      - simpl in Hg. destruct k as [str|kq]; [|discriminate].
+        destruct (acl qv) as [[|c [|? ?]]|] eqn:Ea; try discriminate.
+        destruct (obj_consts acl r) as [l0|] eqn:Er; [|discriminate]. inversion Hg; subst.
+        pose proof (Forall_inv HF) as [_ Hv]. pose proof (Forall_inv_tail HF) as HF'. simpl in Hv.
+        cbn [den_ents]. rewrite bind_single, (Hv _ Ea), bind_single. rewrite (IHr _ eq_refl HF'), <- app_assoc. reflexivity. }
+    change (den (QObject (e :: es)) rho v) with (den_ents (fun a => den a rho v) (e :: es) []).
+    pose proof (H _ _ Eg IHes []) as X. simpl app in X. rewrite Em in X. exact X.
 Qed.
 
 Ltac len_contra H :=
@@ -78,6 +118,21 @@ Ltac callf_inv Hc :=
          match type of Hc with context [comp_args ?C ?l ?p ?s] => destruct (comp_args C l p s) as [[[? ?] ?]|]; [|discriminate] end;
          len_contra' Hc]).
 
+Lemma arg_code_len : forall v p sn cb nvc, 1 <= length (arg_code v p sn cb nvc).
+Proof.
+  intros v p sn cb nvc. unfold arg_code. destruct cb as [|x [|y r]]; simpl; [lia| |lia].
+  destruct (Nat.eqb nvc 0); [destruct x; simpl; lia|simpl; lia].
+Qed.
+Ltac indexq_contra Hc :=
+  let H := fresh in
+  destruct (comp_indexq_inv _ _ _ _ _ _ _ _ _ _ _ _ Hc) as (_ & _ & _ & ?cb & ?nb & ?s1 & ?ca & ?na & _ & _ & H & _);
+  apply (f_equal (@length instr)) in H; simpl in H; rewrite !app_length in H; simpl in H;
+  match type of H with context [length (arg_code ?v ?p ?s ?c ?n)] => pose proof (arg_code_len v p s c n) end; lia.
+Ltac slice_contra Hc :=
+  let H := fresh in
+  destruct (comp_slice_inv _ _ _ _ _ _ _ _ _ _ _ _ _ Hc) as (_ & _ & _ & ?ca & ?na & ?s1 & ?cb & ?nb & ?s2 & ?ct & ?nt0 & _ & _ & _ & H & _);
+  apply (f_equal (@length instr)) in H; simpl in H; rewrite !app_length in H; simpl in H; lia.
+
 Lemma comp_nil : forall q ce tp cur pc nv sn nv' sn', compg tco q ce tp cur pc nv sn = Some ([], nv', sn') -> emptycode q = true /\ nv' = nv /\ sn' = sn.
 Proof.
   qind q; intros ce tp cur pc nv sn nv' sn' Hc; simpl in Hc; dcomp; try (inversion Hc; subst; auto; fail);
@@ -92,6 +147,12 @@ Proof.
   - (* binop *) binop_contra Hc.
   - (* def *) def_contra Hc.
   - (* callf *) callf_inv Hc. destruct (tail_call tp p); discriminate.
+  - (* object *) destruct es as [|e es]; [discriminate|].
+    destruct (comp_object_inv _ _ _ _ _ _ _ _ _ _ Hc) as (cs & _ & [(kcs & w & _ & _ & H)|[_ H]]); discriminate.
+  - (* bindp *) change (compg tco (QBindP s p b) ce tp cur pc nv sn = Some ([], nv', sn')) in Hc.
+    destruct (comp_bindp_inv _ _ _ _ _ _ _ _ _ _ _ _ _ Hc) as (_ & _ & cs & n1 & s1 & cp & bs & n2 & cb & _ & _ & _ & _ & H). len_contra H.
+  - (* indexq *) change (compg tco (QIndexQ t q) ce tp cur pc nv sn = Some ([], nv', sn')) in Hc. indexq_contra Hc.
+  - (* slice *) change (compg tco (QSlice t a b) ce tp cur pc nv sn = Some ([], nv', sn')) in Hc. slice_contra Hc.
 Qed.
 
 Lemma app_single : forall (a b : list instr) x, a ++ b = [x] -> (a = [] /\ b = [x]) \/ (a = [x] /\ b = []).
@@ -120,6 +181,15 @@ Proof.
   - (* binop *) binop_contra Hc.
   - (* def *) def_contra Hc.
   - (* callf *) callf_inv Hc. unfold tail_call in Hc. destruct tp as [[p' [[|]|]]|]; try destruct (Nat.eqb p' p); discriminate.
+  - (* object *) destruct es as [|e es]; [inversion Hc; subst; reflexivity|].
+    destruct (comp_object_inv _ _ _ _ _ _ _ _ _ _ Hc) as (cs & E & [(kcs & w & Hk & Hm & H)|[_ H]]); [|len_contra H].
+    inversion H; subst. cbn [den1].
+    rewrite (ents_const_den _ (fun a => den a rho v) _ _ _ _ _ _ _ _ _ E Hk); [simpl; rewrite Hm; reflexivity|].
+    eapply Forall_EntP_impl; [|exact IHes]. simpl. intros a Ha p n s n' s' k1 H1. eapply Ha; eauto.
+  - (* bindp *) change (compg tco (QBindP s p b) ce tp cur pc nv sn = Some ([Iconst k0], nv', sn')) in Hc.
+    destruct (comp_bindp_inv _ _ _ _ _ _ _ _ _ _ _ _ _ Hc) as (_ & _ & cs & n1 & s1 & cp & bs & n2 & cb & _ & _ & _ & _ & H). len_contra H.
+  - (* indexq *) change (compg tco (QIndexQ t q) ce tp cur pc nv sn = Some ([Iconst k0], nv', sn')) in Hc. indexq_contra Hc.
+  - (* slice *) change (compg tco (QSlice t a b) ce tp cur pc nv sn = Some ([Iconst k0], nv', sn')) in Hc. slice_contra Hc.
 Qed.
 
 Lemma bind_list_ext' : forall r (f g : jv -> result), (forall w, f w = g w) -> bind r f = bind r g.
@@ -205,17 +275,14 @@ Proof.
   - (* binop *) binop_contra Hc.
   - (* def *) def_contra Hc.
   - (* callf *) callf_inv Hc. inversion Hc; subst. right. exists f, p, n0. auto.
+  - (* object *) destruct es as [|e es]; [inversion Hc; subst; left; split; auto|].
+    assert (Hc' : comp (QObject (e :: es)) ce cur pc nv sn = Some ([x0], nv, sn')) by exact Hc.
+    apply comp_nvars in Hc'. rewrite nvars_object in Hc'. lia.
+  - (* bindp *) change (compg tco (QBindP s p b) ce None cur pc nv sn = Some ([x0], nv, sn')) in Hc.
+    destruct (comp_bindp_inv _ _ _ _ _ _ _ _ _ _ _ _ _ Hc) as (_ & _ & cs & n1 & s1 & cp & bs & n2 & cb & _ & _ & _ & _ & H). len_contra H.
+  - (* indexq *) change (compg tco (QIndexQ t q) ce None cur pc nv sn = Some ([x0], nv, sn')) in Hc. indexq_contra Hc.
+  - (* slice *) change (compg tco (QSlice t a b) ce None cur pc nv sn = Some ([x0], nv, sn')) in Hc. slice_contra Hc.
 Qed.
-
-(* the code of an argument of an internal function (compileCallInternal / compileFuncDef) *)
-Definition arg_code (v : var) (p sn : nat) (cb : list instr) (nvc : nat) : list instr :=
-  match cb with
-  | [] => [Iload v]
-  | [x] => if Nat.eqb nvc 0
-           then match x with Iconst c => [Ipush c] | _ => [Iload v; x] end
-           else Ijump (p + 2 + 1 + 1) :: Iscope sn nvc 0 :: [x] ++ [Iret; Iload v; Ipushpc (S p); Icallpc]
-  | _ => Ijump (p + 2 + length cb + 1) :: Iscope sn nvc 0 :: cb ++ [Iret; Iload v; Ipushpc (S p); Icallpc]
-  end.
 
 Lemma comp_binop_inv : forall o a b ce cur pc nv sn cq nv' sn', comp (QBinop o a b) ce cur pc nv sn = Some (cq, nv', sn') ->
   cur < sn /\ ce_lt ce sn = true /\ exists cb nb s1 ca na,
